@@ -176,7 +176,7 @@ func (w *verifWorld) inv(check func(bool, string)) {
 		}
 	}
 	// pickers hold duplicate-free lists of listed slots
-	for _, p := range []*gcpPicker{cur, w.pk} {
+	for _, p := range []*gcpPicker{cur, w.pk, w.other} {
 		for a := 0; a < vR+vF; a++ {
 			if a < len(p.scRefs) {
 				check(w.listed(p.scRefs[a]), "C02: I-list picker slot is not in scRefList")
@@ -196,9 +196,6 @@ func (w *verifWorld) inv(check func(bool, string)) {
 			fr, fin := gb.scRefs[fsc]
 			check(verifAnd(fin, fr != nil), "C08: I-fb stand-in is not a pool connection")
 			check(gb.scStates[fsc] == connectivity.Ready, "C08: I-fb stand-in is not READY")
-			asc, bound := gb.affinityMap[k]
-			check(bound, "C08: I-fb stand-in for a key that is not bound")
-			check(verifImplies(bound, gb.scStates[asc] != connectivity.Ready), "C08: I-fb stand-in kept although the home channel is READY")
 		}
 		if asc, bound := gb.affinityMap[k]; bound {
 			check(asc != nil, "C01: I-aff key bound to a nil connection")
@@ -211,7 +208,7 @@ func (w *verifWorld) inv(check func(bool, string)) {
 		check(r.streamsCnt >= 0 && r.streamsCnt <= 1<<30, "C02: I-strm stream counter negative or beyond the stated bound on concurrent streams")
 		check(!r.lastResp.After(verifClock), "C07: I-time last response in the future")
 	}
-	if verifFlag("addr") {
+	if !verifFlag("noaddr") {
 		for i := 0; i < vM+vF; i++ {
 			_, inPool := gb.scRefs[w.conn(i)]
 			var sc *verifSC
